@@ -406,6 +406,7 @@ func streamConc(c *Ctx) {
 	sharedValueProbes(c)
 	pendingReadProbe(c)
 	earlyAccessorProbe(c)
+	requestIsolationProbes(c)
 	c.Note("%d goroutines x %d calls over %d client configurations; %d buffer-pool and %d codec-pool events recorded", G, K, len(sets), len(events), len(cevents))
 }
 
@@ -552,6 +553,113 @@ func pendingReadProbe(c *Ctx) {
 		pendingReads.mu.Unlock()
 		if hit {
 			c.Fail("conc-buffer-recycled-under-read", proto+" server stream: context cancelled while the transport's body Read (64-byte message, 4 bytes delivered) is still pending", "the call's buffer went back to the pool before that Read returned", "the pending Read writes into a buffer the next call on this client will be given")
+		}
+	}
+}
+
+// urlEditingClient is an HTTPClient that - like a request signer or a tenant router - edits the
+// URL of the request it is handed (adds a query parameter taken from a header).
+type urlEditingClient struct {
+	mu   sync.Mutex
+	seen []string
+}
+
+func (u *urlEditingClient) Do(req *http.Request) (*http.Response, error) {
+	if t := req.Header.Get("X-Tenant"); t != "" {
+		q := req.URL.Query()
+		q.Set("tenant", t)
+		req.URL.RawQuery = q.Encode()
+	}
+	u.mu.Lock()
+	u.seen = append(u.seen, req.URL.String())
+	u.mu.Unlock()
+	return (&staticClient{status: 200, header: http.Header{"Content-Type": {req.Header.Get("Content-Type")}}}).Do(req)
+}
+
+// requestIsolationProbes (sequential):
+//
+//	(a) every call hands the HTTPClient a request of its own: what a transport does to one
+//	    request (its URL included) does not show up in the next call's;
+//	(b) on a bidi stream the goroutine that receives may start first: headers the sending
+//	    goroutine sets before its first Send still go out (the request is made by the first use
+//	    of the request side, not by a waiting Receive).
+func requestIsolationProbes(c *Ctx) {
+	for _, proto := range []string{"connect", "grpc", "grpcweb"} {
+		copts := []connect.ClientOption{connect.WithCodec(rawCodec{"raw"})}
+		if proto == "grpc" {
+			copts = append(copts, connect.WithGRPC())
+		} else if proto == "grpcweb" {
+			copts = append(copts, connect.WithGRPCWeb())
+		}
+		// (a)
+		got := safely(func() string {
+			hc := &urlEditingClient{}
+			cl := connect.NewClient[[]byte, []byte](hc, "http://h/s/m", copts...)
+			for _, tenant := range []string{"alpha", "", "beta", ""} {
+				req := connect.NewRequest(&[]byte{1})
+				if tenant != "" {
+					req.Header().Set("X-Tenant", tenant)
+				}
+				_, _ = cl.CallUnary(context.Background(), req)
+				st := cl.CallClientStream(context.Background())
+				if tenant != "" {
+					st.RequestHeader().Set("X-Tenant", tenant)
+				}
+				_ = st.Send(&[]byte{1})
+				_, _ = st.CloseAndReceive()
+			}
+			want := []string{"http://h/s/m?tenant=alpha", "http://h/s/m?tenant=alpha", "http://h/s/m", "http://h/s/m", "http://h/s/m?tenant=beta", "http://h/s/m?tenant=beta", "http://h/s/m", "http://h/s/m"}
+			if strings.Join(hc.seen, " ") != strings.Join(want, " ") {
+				return strings.Join(hc.seen, " ")
+			}
+			return "ok"
+		})
+		c.Count("conc-request-isolation")
+		if got != "ok" {
+			c.Fail("conc-crosstalk-shared-request", proto+" calls through an HTTPClient that adds ?tenant=<X-Tenant header> to the URL of the request it is handed; tenants alpha, none, beta, none", got, "a later call's request carried what the transport did to an earlier call's request")
+		}
+		// (b)
+		got = safely(func() string {
+			seen := make(chan string, 1)
+			h := connect.NewBidiStreamHandler("/s/m", func(ctx context.Context, s *connect.BidiStream[[]byte, []byte]) error {
+				seen <- s.RequestHeader().Get("X-Call-Id")
+				for {
+					if _, err := s.Receive(); err != nil {
+						return nil
+					}
+				}
+			}, connect.WithCodec(rawCodec{"raw"}))
+			srv := httptest.NewUnstartedServer(h)
+			srv.EnableHTTP2 = true
+			srv.StartTLS()
+			defer srv.Close()
+			cl := connect.NewClient[[]byte, []byte](srv.Client(), srv.URL+"/s/m", copts...)
+			st := cl.CallBidiStream(context.Background())
+			recvDone := make(chan struct{})
+			go func() {
+				defer close(recvDone)
+				_, _ = st.Receive() // the receiver is up first and waits
+			}()
+			time.Sleep(50 * time.Millisecond)
+			st.RequestHeader().Set("X-Call-Id", "late-but-before-send")
+			_ = st.Send(&[]byte{1})
+			var id string
+			select {
+			case id = <-seen:
+			case <-time.After(3 * time.Second):
+				id = "(handler not reached)"
+			}
+			_ = st.CloseRequest()
+			<-recvDone
+			_ = st.CloseResponse()
+			if id != "late-but-before-send" {
+				return "handler saw X-Call-Id=" + id
+			}
+			return "ok"
+		})
+		c.Count("conc-receiver-first")
+		if got != "ok" {
+			c.Fail("conc-call-failed", proto+" bidi stream: the receiving goroutine calls Receive first, then the sending goroutine sets a request header and sends", got, "a header set before the first Send did not reach the handler")
 		}
 	}
 }
